@@ -125,3 +125,70 @@ func (p *pkg) squashCopies(fn *ast.FuncDecl) (bool, string) {
 	}
 	return result, ""
 }
+
+// durations: time.Second etc. as nanoseconds
+var durUnits = map[string]int64{"Nanosecond": 1, "Microsecond": 1000, "Millisecond": 1000000, "Second": 1000000000, "Minute": 60000000000, "Hour": 3600000000000}
+
+func (p *pkg) evalDur(e ast.Expr) (int64, bool) {
+	switch t := e.(type) {
+	case *ast.SelectorExpr:
+		if x, ok := t.X.(*ast.Ident); ok && x.Name == "time" {
+			if u, ok := durUnits[t.Sel.Name]; ok {
+				return u, true
+			}
+		}
+	case *ast.BinaryExpr:
+		a, ok1 := p.evalDur(t.X)
+		b, ok2 := p.evalDur(t.Y)
+		if ok1 && ok2 && t.Op == token.MUL {
+			return a * b, true
+		}
+	case *ast.ParenExpr:
+		return p.evalDur(t.X)
+	}
+	return p.eval(e)
+}
+
+// defaultOf finds `if ident <= 0 { ident = V }` in fn.
+func (p *pkg) defaultOf(fn *ast.FuncDecl, ident string) (int64, bool) {
+	var v int64
+	found := false
+	ast.Inspect(fn.Body, func(n ast.Node) bool {
+		is, ok := n.(*ast.IfStmt)
+		if !ok || found {
+			return true
+		}
+		be, ok := is.Cond.(*ast.BinaryExpr)
+		if !ok || be.Op != token.LEQ || exprString(p.fset, be.X) != ident || exprString(p.fset, be.Y) != "0" {
+			return true
+		}
+		for _, s := range is.Body.List {
+			if as, ok := s.(*ast.AssignStmt); ok && len(as.Lhs) == 1 && exprString(p.fset, as.Lhs[0]) == ident {
+				if x, ok := p.evalDur(as.Rhs[0]); ok {
+					v, found = x, true
+				}
+			}
+		}
+		return true
+	})
+	return v, found
+}
+
+// compositeField finds `field: V` in the first composite literal of fn.
+func (p *pkg) compositeField(fn *ast.FuncDecl, field string) (int64, bool) {
+	var v int64
+	found := false
+	ast.Inspect(fn.Body, func(n ast.Node) bool {
+		kv, ok := n.(*ast.KeyValueExpr)
+		if !ok || found {
+			return true
+		}
+		if id, ok := kv.Key.(*ast.Ident); ok && id.Name == field {
+			if x, ok := p.evalDur(kv.Value); ok {
+				v, found = x, true
+			}
+		}
+		return true
+	})
+	return v, found
+}
